@@ -474,6 +474,22 @@ def layer_io_cells(tier):
                 cells.append(Cell("io.%s.roundtrip.N%d" % (nm, n), un, "h_layer_roundtrip", defines=d, optional=True,
                                   replace=["layer_write_binary", "layer_read_binary"], unwind=5, closes_loops="harness loops over N", backends=(("cadical", 2400),),
                                   note="round-trip lemma over the two contracts (recorded attempt: needs ~8 min and close to the 10 GB memory cap; decided when run alone)"))
+    for L, nm in (("4", "clamp"), ("5", "backup")):
+        if tier == "quick":
+            break      # 8-10 min each on a loaded machine: thorough tier only
+        combos = [(2, "float", 3, "float"), (3, "double", 1, "double")]
+        for n, ist, m, ost in combos:
+            d = {"DIMS_IN": n, "LAYER": L, "IN_SCALAR_T": ist, "DIMS_OUT": m, "OUT_SCALAR_T": ost}
+            un = "layer_io@L=" + L
+            tag = "N%d.%s" % (n, ist)
+            cells.append(Cell("io.%s.invec.%s" % (nm, tag), un, "h_read_binary_invec", defines=d, enforce="read_binary_invec", closes_loops="loop-free",
+                              backends=(("cadical", 900), ("sat", 600))))
+            for fl in (("ndebug",) if tier == "quick" else ("debug", "ndebug")):
+                cells.append(Cell("io.%s.read.%s.%s" % (nm, tag, fl), un, "h_layer_read_binary", defines=d, flavour=fl, enforce="layer_read_binary",
+                                  replace=["read_io_header", "read_io_footer", "read_binary_invec", "read_binary_outvec"], closes_loops="loop-free",
+                                  backends=(("cadical", 3000),), split=6))
+            cells.append(Cell("io.%s.write.%s" % (nm, tag), un, "h_layer_write_binary", defines=d, enforce="layer_write_binary",
+                              replace=["write_io_header", "write_io_footer"], closes_loops="loop-free", backends=(("cadical", 3000),), split=6))
     return cells
 
 
@@ -509,22 +525,6 @@ def thin_io_cells(tier, which=("1", "2", "3", "4", "5", "6", "7", "8")):
                                   replace=["read_io_header", "read_io_footer"], closes_loops="loop-free", backends=(("cadical", 1500),), split=6))
             cells.append(Cell("io.field.dump", un, "h_field_dump", defines=d, enforce="field_dump",
                               replace=["write_io_header", "write_io_footer"], closes_loops="loop-free", backends=(("cadical", 1500),), split=6))
-    for L, nm in (("4", "clamp"), ("5", "backup")):
-        if tier == "quick":
-            break      # 8-10 min each on a loaded machine: thorough tier only
-        combos = [(2, "float", 3, "float"), (3, "double", 1, "double")]
-        for n, ist, m, ost in combos:
-            d = {"DIMS_IN": n, "LAYER": L, "IN_SCALAR_T": ist, "DIMS_OUT": m, "OUT_SCALAR_T": ost}
-            un = "layer_io@L=" + L
-            tag = "N%d.%s" % (n, ist)
-            cells.append(Cell("io.%s.invec.%s" % (nm, tag), un, "h_read_binary_invec", defines=d, enforce="read_binary_invec", closes_loops="loop-free",
-                              backends=(("cadical", 900), ("sat", 600))))
-            for fl in (("ndebug",) if tier == "quick" else ("debug", "ndebug")):
-                cells.append(Cell("io.%s.read.%s.%s" % (nm, tag, fl), un, "h_layer_read_binary", defines=d, flavour=fl, enforce="layer_read_binary",
-                                  replace=["read_io_header", "read_io_footer", "read_binary_invec", "read_binary_outvec"], closes_loops="loop-free",
-                                  backends=(("cadical", 3000),), split=6))
-            cells.append(Cell("io.%s.write.%s" % (nm, tag), un, "h_layer_write_binary", defines=d, enforce="layer_write_binary",
-                              replace=["write_io_header", "write_io_footer"], closes_loops="loop-free", backends=(("cadical", 3000),), split=6))
     return cells
 
 
